@@ -7,6 +7,7 @@
 #define FCPPT_CONTAINER_BITFIELD_OPERATORS_HPP_INCLUDED
 
 #include <fcppt/container/bitfield/object_impl.hpp>
+#include <fcppt/container/bitfield/detail/element_bits.hpp>
 #include <fcppt/config/external_begin.hpp>
 #include <algorithm>
 #include <fcppt/config/external_end.hpp>
@@ -105,7 +106,25 @@ operator~(fcppt::container::bitfield::object<ElementType, InternalType> _field)
       _field.array().begin(),
       _field.array().end(),
       _field.array().begin(),
-      [](InternalType const _arg) { return ~_arg; });
+      [](InternalType const _arg) { return static_cast<InternalType>(~_arg); });
+
+  using field_type = fcppt::container::bitfield::object<ElementType, InternalType>;
+
+  using size_type = typename field_type::size_type;
+
+  // The bits of the last element that do not belong to any enumerator must stay zero,
+  // because comparison and hashing look at whole elements.
+  constexpr size_type const used_bits{
+      field_type::static_size::value %
+      fcppt::container::bitfield::detail::element_bits<size_type, InternalType>::value};
+
+  if constexpr (used_bits != 0U)
+  {
+    InternalType &last{_field.array().get_unsafe(field_type::array_size::value - 1U)};
+
+    last = static_cast<InternalType>(
+        last & static_cast<InternalType>((static_cast<InternalType>(1U) << used_bits) - 1U));
+  }
 
   return _field;
 }
